@@ -163,14 +163,19 @@ def _sample(ctx, behs, pred):
                     "transactions_in_history": len(b["txs"])})
 
 
+BND_RULE_Z = (" Composition boundary set (C10, never sampled): 2-3 overlapping base proofs of one vault in the auth zone in both orders "
+              "(smaller first / larger first / equal), base proofs on two vaults, bucket-backed base proofs, non-fungible base proofs in both orders, "
+              "fungible and non-fungible proofs mixed in the zone (the native code traps), dropped signature proofs; compose n in {<= smaller, "
+              "between, = larger, > larger}; then drop the last / the first / all base proofs / everything / also the composed proof; then "
+              "withdraw, recall and burn every amount 0 .. balance + 1 granule (every id set).")
 BND_RULE = " The BOUNDARY set (never sampled, same in quick and thorough) is the full product (limit state reached by a scripted prefix: worktop = balance, part-locked vault, overlapping proofs, locked bucket on the worktop, burnt id, failed mint, lost signatures ...) x (every instruction kind that can consume it) x (every argument: amounts 0 .. balance + 1 granule in half-granule steps, all id sets), each followed by a closing sequence."
 
 ALL_OPS_CORE = ["IWithdraw", "ITakeFromWorktop", "ITakeAll", "IReturnToWorktop", "IDeposit", "IDepositBatch", "IMint", "IBurn",
                 "IAssertContains", "IAssertAny", "EndTx"]
 NF_OPS_CORE = ["IWithdrawNF", "ITakeNF", "IMintNF", "IAssertNF"]
-PROOF_OPS = ["IProofOfAmount", "IBucketProofOfAmount", "IBucketProofOfAll", "IPopFromAuthZone", "IPushToAuthZone", "ICloneProof",
+PROOF_OPS = ["IAzProofOfAmount", "IAzProofOfAll", "IProofOfAmount", "IBucketProofOfAmount", "IBucketProofOfAll", "IPopFromAuthZone", "IPushToAuthZone", "ICloneProof",
              "IDropProof", "IDropAllProofs", "IDropAuthZoneRegularProofs", "IWithdraw", "IRecall", "IBurnInAccount", "IBurn", "IDeposit"]
-PROOF_OPS_NF = ["IProofOfNF", "IBucketProofOfNF", "IBucketProofOfAll", "IPopFromAuthZone", "ICloneProof", "IDropProof",
+PROOF_OPS_NF = ["IAzProofOfNF", "IAzProofOfAll", "IProofOfNF", "IBucketProofOfNF", "IBucketProofOfAll", "IPopFromAuthZone", "ICloneProof", "IDropProof",
                 "IWithdrawNF", "IRecallNF", "IBurnNFInAccount"]
 NF_OPS = ["IMintNF", "IMintNFWrongType", "IMintRuid", "IBurn", "IBurnNFInAccount", "IUpdateNFData", "IDepositBatch", "IWithdrawNF", "ITakeAll"]
 HIST_OPS = ["IWithdraw", "IWithdrawNF", "ITakeAll", "IDeposit", "IDepositBatch", "IMint", "IMintNF", "IBurn", "IBurnInAccount",
@@ -288,26 +293,29 @@ def C10(ctx):
     behs = _run(ctx,
                 [("MCLedgerProofs", {"MaxInstr": 5 if q else 8}, PROOF_OPS),
                  ("MCLedgerProofsNF", {"MaxInstr": 4 if q else 6}, PROOF_OPS_NF)],
-                [("bnd", "BndLedgerL" if q else "BndLedgerAll", 0, 0, None),
+                [("bnd", "BndLedgerL" if q else "BndLedgerAll", 0, 0, None), ("bnd", "BndLedgerZ", 0, 0, None),
                  ("exh", "GenLedgerTinyBucketProofs", 0, 0, None),
-                 ("sim", "SimLedgerProofs", 600 if q else 25000, 14, None)] +
+                 ("sim", "SimLedgerProofs", 300 if q else 25000, 14, None)] +
                 ([] if q else [("exh", "GenLedgerTinyProofs", 0, 0, None), ("sim", "SimLedgerFG", 4000, 12, None),
                                ("sim", "SimLedgerH", 3000, 14, None)]))
     return _finish(ctx, behs,
-                   "S: TLC checks on every interleaving of proof creation (account vault / bucket; amount / ids / all), cloning, "
+                   "S: TLC checks on every interleaving of proof creation (account vault / bucket / composed by the auth zone from its base "
+                   "proofs; amount / ids / all), cloning, "
                    "pop/push, dropping, withdraw, burn, recall, take, return, deposit (<= 5/8 instructions fungible, <= 4/6 non-fungible; "
-                   "2 proof names, 2 auth-zone slots) LocksMatchProofs (locks of a container = live proofs on it), ProofBacked (the proven "
-                   "amount/ids stay in the named container), TotalUnchangedByLocks (max-of-locks accounting), OnlyLiquidLeaves, "
+                   "2 proof names, 2 auth-zone slots) LocksMatchProofs (locks of a container = evidence entries of the live proofs on it), "
+                   "ProofBacked (for every live proof - plain, cloned or composed - the evidence covers the whole claimed amount / id set and "
+                   "lies inside the locked part of its containers, so nothing a live proof evidences is withdrawable), TotalUnchangedByLocks (max-of-locks accounting), OnlyLiquidLeaves, "
                    "UnlockedIsLiquid, NoLocksOutsideTx, DivisibilityState/Args. G: %(n)d model manifests (all manifests of <= 5 instructions of a tiny "
                    "bucket-proof instance, thorough: also of <= 3 instructions of a tiny account-proof instance; + seeded manifests of up to 10 instructions weighted towards overlapping proofs; "
                    "divisibility 2 and 0 with amounts of one digit too many, thorough: also 18) executed on the real ledger: outcome, error class, failing index "
-                   "and all balances compared. %(ok)d of %(txs)d commit. distinct = distinct manifests with >= 2 instructions." + BND_RULE,
+                   "and all balances compared. %(ok)d of %(txs)d commit. distinct = distinct manifests with >= 2 instructions." + BND_RULE + BND_RULE_Z,
                    extra_samples=[lambda b: sum(1 for i in b["txs"][-1]["ins"] if "Proof" in i["op"]) >= 3],
-                   ops_ok=["ProofOfAmount", "ProofOfNF", "BucketProofOfAmount", "BucketProofOfAll", "BucketProofOfNF", "PopFromAuthZone",
+                   ops_ok=["AzProofOfAmount", "AzProofOfNF", "AzProofOfAll", "DropAuthZoneSignatureProofs", "ProofOfAmount", "ProofOfNF", "BucketProofOfAmount", "BucketProofOfAll", "BucketProofOfNF", "PopFromAuthZone",
                            "PushToAuthZone", "CloneProof", "DropProof", "DropAllProofs", "DropNamedProofs", "DropAuthZoneRegularProofs",
                            "Withdraw", "WithdrawNF", "Recall", "BurnInAccount", "TakeFromWorktop", "TakeAll", "ReturnToWorktop", "Deposit"],
                    errs=["InsufficientBalance", "BucketLocked", "InvalidAmount", "EmptyProofNotAllowed", "MissingId", "ProofNotFound",
-                         "AuthZoneIsEmpty", "Unauthorized", "BucketNotFound", "WorktopInsufficient", "OrphanedNodes", "*"])
+                         "AuthZoneIsEmpty", "Unauthorized", "BucketNotFound", "WorktopInsufficient", "OrphanedNodes", "*",
+                         "InsufficientBaseProofs", "Trap"])
 
 
 def C43(ctx):
@@ -486,13 +494,16 @@ PROPS = {
     "C10": dict(fn=C10, level="model_checking", design_ref="5/C10",
                 technique="TLA+ spec Ledger with max-of-locks containers: TLC exhaustive interleavings of proof creation/clone/drop and withdrawals + replay through real manifests",
                 text="Containers are [liquid, bag of locked amounts | id -> lock count]; Lock(n) needs n <= liquid + Max(locked) and moves "
-                     "max(0, n - Max(locked)); Unlock returns oldMax - newMax. TLC checks over all interleavings that the locks of a container "
+                     "max(0, n - Max(locked)); Unlock returns oldMax - newMax. A proof carries its evidence: the containers it locked and the part locked in each; "
+                     "the auth zone composes proofs from its base proofs (per container the MAX over the base proofs, summed over containers; each container "
+                     "locked once up to that quota, in zone order). TLC checks over all interleavings that the locks of a container "
                      "are exactly the live proofs on it, that the proven amount/ids stay in the container, that proofs never change a "
                      "container's total, that only liquid funds leave by withdraw/burn/recall/take, that everything is liquid again without "
                      "proofs, and that accepted amounts respect divisibility. The same interleavings are generated as manifests "
                      "(create_proof_from_account_of_amount / _of_non_fungibles, create_proof_from_bucket_*, pop/push, clone, drop, "
                      "withdraw, burn, recall, take, return, deposit) and executed on a real ledger.",
-                note="Trusted: as C09. Mid-transaction amounts are observed through the outcomes of later instructions (withdraw/take/recall "
+                note="Trusted: as C09. Non-fungible composition by amount (order dependent) is not modelled. A zone holding both fungible and non-fungible proofs makes "
+                     "create_proof_from_auth_zone_* trap in native code (observed and modelled as failure class Trap). Mid-transaction amounts are observed through the outcomes of later instructions (withdraw/take/recall "
                      "of liquid+1 fails, of liquid succeeds) and final balances, not by reading vault state inside the transaction."),
     "C43": dict(fn=C43, level="model_checking", design_ref="5/C43",
                 technique="TLA+ spec Ledger (non-fungible ids, tombstones, mutable fields) over transaction histories: TLC exhaustive + histories replayed on a real ledger",
